@@ -46,6 +46,7 @@ pub fn replay_rec(fr: &FailRec, dir: &std::path::Path, known: &Known, path: &str
                 }
                 if fr.kind == "history_c06" {
                     opts.bytes_unchanged = true;
+                    opts.dump_after_error = true;
                 }
                 run_history(&case, &opts).result.err()
             }
